@@ -32,12 +32,12 @@ const (
 )
 
 type Expr struct {
-	Kind     Kind
-	Kids     []*Expr
-	Val      string // literal text, class text, rule name, label name
-	Code     string // action code (source form only) / action func name (compiled)
+	Kind       Kind
+	Kids       []*Expr
+	Val        string // literal text, class text, rule name, label name
+	Code       string // action code (source form only) / action func name (compiled)
 	IgnoreCase bool
-	Line     int
+	Line       int
 }
 
 type Rule struct {
@@ -47,9 +47,9 @@ type Rule struct {
 }
 
 type Grammar struct {
-	Rules []*Rule
+	Rules  []*Rule
 	ByName map[string]*Rule
-	Init  string
+	Init   string
 }
 
 func (g *Grammar) index() {
